@@ -1,6 +1,7 @@
 //! Fixtures, reference models and oracles for the `anda_db` collection-level
 //! properties (C01..C06).
 
+pub mod conc;
 pub mod crash;
 pub mod fixture;
 pub mod model;
